@@ -32,7 +32,7 @@ type vraceResult struct {
 var raceFrame = regexp.MustCompile(`^\s+(github\.com/ulikunitz/xz\S+)\(\)`)
 
 func checkC14(c *ev.Ctx) {
-	c.SetRule("a -race build runs rounds of N in {16,2,4,32} goroutines, each with its own xz/LZMA/LZMA2 writer or reader (both matchers, varied lc/lp/pb, dictionary, block size, check; readers consume streams written in earlier rounds) through sinks/sources that record a global ticket and yield (runtime.Gosched) at seed-chosen calls; repeated as separate processes for GOMAXPROCS in {1,2,4,16} (the first use of every package-level facility happens inside the concurrent phase; the sequential reference runs come last). Oracles: zero race-detector reports with frames of the library; each goroutine's output equals the output of the same job run alone; identical bytes across goroutines, GOMAXPROCS settings and processes. distinct non-trivial = distinct interleaving signatures (hash of the goroutine sequence over boundary tickets) plus distinct job keys")
+	c.SetRule("a -race build runs rounds of N in {16,2,4,32} goroutines, each with its own xz/LZMA/LZMA2 writer or reader (both matchers, varied lc/lp/pb, dictionary, block size, check; readers consume streams written in earlier rounds) through sinks/sources that record a global ticket and yield (runtime.Gosched) at seed-chosen calls; repeated as separate processes for GOMAXPROCS in {1,2,4,16} (the first use of every package-level facility happens inside the concurrent phase; the sequential reference runs come last). plus connected instances in a process of their own (one instance is the source or sink of another, io.Pipe pipelines across three formats, an instance stalled inside its source or sink call while others run to completion; a mutual block is reported by the Go runtime's deadlock detector). Oracles: zero race-detector reports with frames of the library; each goroutine's output equals the output of the same job run alone; identical bytes across goroutines, GOMAXPROCS settings and processes. distinct non-trivial = distinct interleaving signatures (hash of the goroutine sequence over boundary tickets) plus distinct job keys")
 	c.Assume("the Go race detector only sees accesses that happened in these executions", "no golden digests are stored: outputs are compared among runs of the same tree")
 	bin := os.Getenv("VERIF_VRACE")
 	if bin == "" {
@@ -71,6 +71,84 @@ func checkC14(c *ev.Ctx) {
 		}
 		results[i] = &r
 	}
+	// connected instances (cmd/vrace/chain.go): stacked, piped and hand-over scenarios; when the
+	// instances block each other the Go runtime ends the process with its deadlock report
+	// (plain build first: only there the runtime detects the deadlock; the -race build of the same
+	// scenarios follows for the race reports, and only if the plain run came through)
+	type chainProc struct {
+		gmp, rounds int
+		race        bool
+	}
+	chainProcs := []chainProc{{4, 4, false}, {4, 1, true}}
+	if thorough(c) {
+		chainProcs = []chainProc{{1, 40, false}, {16, 40, false}, {4, 6, true}}
+	}
+	vchain := os.Getenv("VERIF_VCHAIN")
+	if vchain == "" {
+		c.Inconclusive("plain build of vrace missing (VERIF_VCHAIN unset)")
+		chainProcs = nil
+	}
+	blocked := false
+	chainKinds := map[string]int{}
+	var chainScen, chainBytes int64
+	for _, cp := range chainProcs {
+		gmp := cp.gmp
+		tag := fmt.Sprintf("chain%d-race%v", gmp, cp.race)
+		prog := vchain
+		if cp.race {
+			if blocked {
+				continue
+			}
+			prog = bin
+		}
+		cmd := exec.Command(prog, "-mode=chain", "-seed", fmt.Sprint(c.Seed), "-rounds", fmt.Sprint(cp.rounds))
+		cmd.Env = append(os.Environ(), fmt.Sprintf("GOMAXPROCS=%d", gmp), fmt.Sprintf("GORACE=halt_on_error=0 log_path=%s/race-%s", logdir, tag))
+		var ob, eb bytes.Buffer
+		cmd.Stdout, cmd.Stderr = &ob, &eb
+		err := cmd.Run()
+		var cr struct {
+			Scenarios int            `json:"scenarios"`
+			Kinds     map[string]int `json:"kinds"`
+			Mismatch  []string       `json:"mismatch"`
+			Errors    []string       `json:"errors"`
+			Bytes     int64          `json:"bytes_through_connected_instances"`
+		}
+		if jerr := json.Unmarshal(ob.Bytes(), &cr); jerr != nil {
+			es := eb.String()
+			last := ""
+			for _, l := range strings.Split(es, "\n") {
+				if strings.HasPrefix(l, "scenario: ") {
+					last = l[len("scenario: "):]
+				}
+			}
+			if strings.Contains(es, "all goroutines are asleep - deadlock!") {
+				at := strings.Index(es, "fatal error:")
+				blocked = true
+				c.Violation("instances-block-each-other", map[string]any{"case_id": tag, "scenario": last,
+					"what":           fmt.Sprintf("connected instances (%s): every goroutine is blocked - the Go runtime reports a deadlock; distinct instances wait for each other", last),
+					"goroutine_dump": clipStr(es[at:], 6000)})
+			} else {
+				blocked = true
+				c.Violation("workload-process-died", map[string]any{"case_id": tag, "what": fmt.Sprintf("vrace -mode=chain (GOMAXPROCS=%d) ended abnormally in scenario %q: %v; stderr: %s", gmp, last, err, clipStr(es, 3000))})
+			}
+			continue
+		}
+		for _, m := range cr.Mismatch {
+			c.Violation("output-differs-from-sequential", map[string]any{"case_id": tag, "what": fmt.Sprintf("connected instances, GOMAXPROCS=%d: %s", gmp, m)})
+		}
+		for _, e := range cr.Errors {
+			c.Violation("instance-failed", map[string]any{"case_id": tag, "what": fmt.Sprintf("connected instances, GOMAXPROCS=%d: %s", gmp, e)})
+		}
+		for k, v := range cr.Kinds {
+			chainKinds[k] += v
+			c.Eval("connected:"+k, true)
+		}
+		chainScen += int64(cr.Scenarios)
+		chainBytes += cr.Bytes
+	}
+	c.Set("connected_instance_scenarios", chainScen)
+	c.Set("connected_instance_kinds", chainKinds)
+	c.Set("bytes_through_connected_instances", chainBytes)
 	// race reports
 	files, _ := filepath.Glob(filepath.Join(logdir, "race-*"))
 	reports := 0
